@@ -40,7 +40,15 @@ class LinkDown(Exception):
         super().__init__('link down on port %s' % (port,))
 
 
-EXC = {'LinkDown': LinkDown, 'HarnessAbort': HarnessAbort, 'ValueError': ValueError, 'KeyError': KeyError, 'RuntimeError': RuntimeError,
+class PortDown(LinkDown):
+    """A subclass that only inherits such a constructor (most exception hierarchies of applications look like this)."""
+
+
+class Congested(PacketError):
+    pass
+
+
+EXC = {'PortDown': PortDown, 'Congested': Congested, 'LinkDown': LinkDown, 'HarnessAbort': HarnessAbort, 'ValueError': ValueError, 'KeyError': KeyError, 'RuntimeError': RuntimeError,
        'ZeroDivisionError': ZeroDivisionError, 'IndexError': IndexError, 'OSError': OSError, 'PacketError': PacketError}
 
 GRID = [0, 0, 0.25, 0.5, 0.5, 1, 1, 1, 1.5, 2, 2, 3]
@@ -52,11 +60,20 @@ POOLS = {'GRID': GRID, 'INTS': INTS, 'FLOAT': FLOAT, 'NASTY': NASTY}
 HANDLERS = ['none', 'cont', 'rewait', 'ret', 'raise', 'other']
 
 
+def rv(v):
+    """Realise a value of a case: '!exc:<class>:<n>' stands for an exception *object* used as an ordinary value (a caught
+    error handed on as a result, an exception stored as an item) - it must travel like any other value."""
+    if isinstance(v, str) and v.startswith('!exc:'):
+        _, name, n = v.split(':')
+        return EXC.get(name, ValueError)(int(n))
+    return v
+
+
 def mkexc(spec):
-    if spec[0] == 'LinkDown':
-        return LinkDown(spec[1][0] if spec[1] else 0)
-    if spec[0] == 'PacketError':
-        return PacketError(spec[1][0] if spec[1] else 0, 'lost')
+    if spec[0] in ('LinkDown', 'PortDown'):
+        return EXC[spec[0]](spec[1][0] if spec[1] else 0)
+    if spec[0] in ('PacketError', 'Congested'):
+        return EXC[spec[0]](spec[1][0] if spec[1] else 0, 'lost')
     return EXC.get(spec[0], ValueError)(*spec[1])
 
 
@@ -115,6 +132,8 @@ def gen_ops(rng, prof, ctx, pid, depth):
         # mostly unique values (every outcome attributable to one trigger), sometimes falsy ones
         if rng.random() < 0.15:
             return rng.choice(FALSY)
+        if rng.random() < 0.04:
+            return '!exc:%s:%d' % (rng.choice(['KeyError', 'ValueError', 'LinkDown', 'HarnessAbort']), ctx['val']())
         return ctx['val']()
     ops = []
     n = rng.randint(1, prof.max_ops)
@@ -260,6 +279,7 @@ class World:
     doors = 'env'
 
     def mk_timeout(self, d, v=None):
+        v = rv(v)
         if self.doors == 'cls':
             return _Timeout(self.env, d, v)
         return self.env.timeout(d, v)
@@ -498,7 +518,7 @@ class World:
                     before = (tgt.triggered, getattr(tgt, '_ok', None), san(getattr(tgt, '_value', None)))
                     try:
                         if k == 'succeed':
-                            tgt.succeed(op.get('v'))
+                            tgt.succeed(rv(op.get('v')))
                         else:
                             tgt.fail(mkexc(op['exc']))
                         out = 'ok'
@@ -587,8 +607,8 @@ class World:
                     self.rec('O', pid, i, 'negtimeout', op['d'], out, trig)
                     continue
                 elif k == 'ret':
-                    self.rec('E', pid, 'ret', op.get('v'))
-                    return op.get('v')
+                    self.rec('E', pid, 'ret', san(rv(op.get('v'))))
+                    return rv(op.get('v'))
                 elif k == 'raise':
                     raise mkexc(op['exc'])
                 elif k == 'tick':
